@@ -205,6 +205,11 @@ impl StoreRig {
         true
     }
 
+    /// The oldest unfinished store task, if any (notifications stay queued).
+    pub fn exec_unfinished_first(&self) -> Option<usize> {
+        self.exec.unfinished().first().copied()
+    }
+
     pub fn quiescent(&self) -> bool {
         self.exec.unfinished().is_empty() && self.queue.is_empty()
     }
